@@ -3,6 +3,8 @@
 # steps: patch applies to /repo; unedited suite passes with it; demonstration passes on the clean tree and fails with the change;
 #        the registered quick check reports VIOLATION with the change and passes without. Nothing is committed to /repo.
 set -u
+export VERIF_EVIDENCE_DIR=$(mktemp -d /tmp/seed_evidence.XXXXXX)   # never overwrite the committed evidence with a run on a modified tree
+trap 'rm -rf "$VERIF_EVIDENCE_DIR"' EXIT
 id="$1"; n="$2"; src="$3"
 out=/verif/seeded/$id; mkdir -p "$out"
 cd /repo || exit 2
